@@ -216,6 +216,36 @@ def systematic_flat():
     return cases
 
 
+def systematic_corner():
+    """tier B: documented corners (identical for every seed)"""
+    out = []
+    F = stroop()
+    full = [1, 2, 3, 4]
+    # run-length constraints whose k (+1) exceeds the window they are evaluated in
+    for k in (2, 3, 5):
+        for kind in ("AtLeastKInARow", "ExactlyKInARow"):
+            for X in ([1], [1, 2]):
+                for f in (1, 2, 4):
+                    out.append(case(F, cross(full, X, [K(kind, k=k, f=f, l=1)]), "B", [kind, "short-window"],
+                                    "cor-%s-k%d-x%d-f%d" % (kind, k, len(X), f)))
+    # ExactlyK with k beyond the number of trials, k = 0; Pin outside the sequence
+    for X in ([1], [1, 2]):
+        T = 2 if len(X) == 1 else 4
+        for k in (0, T, T + 1, T + 3):
+            out.append(case(F, cross(full, X, [K("ExactlyK", k=k, f=2, l=1)]), "B", ["ExactlyK", "k-out-of-range"],
+                            "cor-exk%d-x%d" % (k, len(X))))
+        for i in (T, T + 2, -T, -T - 1):
+            out.append(case(F, cross(full, X, [K("Pin", i=i, f=2, l=1)]), "B", ["Pin", "index-out-of-range"],
+                            "cor-pin%d-x%d" % (i, len(X))))
+    # AtMostKInARow with k >= T (vacuous)
+    out.append(case(F, cross(full, [1, 2], [K("AtMostKInARow", k=4, f=2, l=1)]), "B", ["AtMostKInARow", "vacuous"], "cor-atmost-big"))
+    out.append(case(F, cross(full, [1, 2], [K("AtMostKInARow", k=9, f=2, l=0)]), "B", ["AtMostKInARow", "vacuous"], "cor-atmost-huge"))
+    # MinimumTrials below the crossing size, equal to it, 1
+    for m in (1, 3, 4):
+        out.append(case(F, cross(full, [1, 2], [K("MinimumTrials", k=m)]), "B", ["MinimumTrials", "small"], "cor-min%d" % m))
+    return out
+
+
 # ---------------------------------------------------------------------------------------------
 # seeded random flat designs, tier A
 
